@@ -655,7 +655,7 @@ pub fn run(args: &Args) -> i32 {
     });
     let mut rep = rep;
     // compile-time half (tools/c17_flavours.py, run by ./check just before this monitor):
-    // rustc's verdict on each of the 140 (trait x pointer x auto-trait) flavours
+    // rustc's verdict on each of the 280 (trait x pointer x auto-trait x {default, user-defined} error type) flavours
     match std::fs::read_to_string(args.root.join("work/c17-flavours.json")).ok().and_then(|t| serde_json::from_str::<vh_core::Value>(&t).ok()) {
         Some(v) => {
             let n = v.get("flavours_accepted").and_then(vh_core::Value::as_u64).unwrap_or(0);
@@ -668,7 +668,7 @@ pub fn run(args: &Args) -> i32 {
     rep.finish(
         args,
         "exploration",
-        "rustc's verdict on 140 generated functions that require each (trait x pointer x auto-trait) flavour to implement the wrapped trait; every round instantiates all 28 pointer flavours of each of the five erasable traits, with the default boxed error type and with the identity error conversion (280 erased calls per round), around run-time chosen implementations (real Best/Worst/Random/Tournament/Lexicase, WithRate, WithOneOverLength, TwoPointXo, UniformXo, a Mutate.then(Mutate) pipeline, succeeding and failing probes drawing through next_u32 / next_u64 / fill_bytes of 1, 5 and 11 bytes / random_bool) on random inputs and seeds; the (trait x flavour) grid is covered exhaustively in every round. distinct_nontrivial = distinct (trait, flavour, wrapped implementation, outcome kind)",
+        "rustc's verdict on 280 generated functions that require each (trait x pointer x auto-trait) flavour to implement the wrapped trait; every round instantiates all 28 pointer flavours of each of the five erasable traits, with the default boxed error type and with the identity error conversion (280 erased calls per round), around run-time chosen implementations (real Best/Worst/Random/Tournament/Lexicase, WithRate, WithOneOverLength, TwoPointXo, UniformXo, a Mutate.then(Mutate) pipeline, succeeding and failing probes drawing through next_u32 / next_u64 / fill_bytes of 1, 5 and 11 bytes / random_bool) on random inputs and seeds; the (trait x flavour) grid is covered exhaustively in every round. distinct_nontrivial = distinct (trait, flavour, wrapped implementation, outcome kind)",
         false,
         &[
             "values are compared through Debug renderings, selectors by element identity, errors by Display text and source chain",
